@@ -1,5 +1,6 @@
 import Juniper.Generated.Comb
 import Juniper.Model.CombSkel
+import Juniper.Proofs.ValueFacts
 /-!
 # Tie lemmas: the regenerated control skeleton of every combinator method is the one its hand-written
 machine was written for (C07–C09, tie 1)
